@@ -32,9 +32,20 @@ def uni(lo, hi):
     return st.one_of(limbs, limbs, st.integers(lo, hi))
 
 
+# names whose SPELLING is unusual (POSIX-looking legacy zones with DST, bare abbreviations, Etc/ zones with inverted signs, links, three-part
+# names, punctuation): anything that classifies a zone by the look of its name goes wrong here (seeded change C02-r6)
+ODD_NAMES = [
+    "EST5EDT", "CST6CDT", "MST7MDT", "PST8PDT", "WET", "CET", "MET", "EET", "EST", "MST", "HST", "GMT0", "GMT+0", "GMT-0", "Etc/GMT+5", "Etc/GMT-14", "Etc/GMT0",
+    "UCT", "Zulu", "NZ-CHAT", "GB-Eire", "W-SU", "PRC", "ROK", "Navajo", "Egypt", "Cuba", "Eire", "Iran", "Israel", "Jamaica", "Japan", "Libya", "Poland", "Portugal",
+    "Turkey", "US/Pacific", "US/Indiana-Starke", "Canada/Newfoundland", "America/Argentina/ComodRivadavia", "America/North_Dakota/New_Salem", "America/Port-au-Prince",
+    "Etc/UTC", "Universal", "Greenwich",
+]
+
+
 def zones():
     allz = [z for z in T.all_zones()]
-    return st.one_of(st.sampled_from(HARD_ZONES), st.sampled_from(allz))
+    odd = [z for z in ODD_NAMES if z in set(allz)]
+    return st.one_of(st.sampled_from(HARD_ZONES), st.sampled_from(HARD_ZONES), st.sampled_from(allz), st.sampled_from(allz), st.sampled_from(odd))
 
 
 def zones_with_transitions():
@@ -157,3 +168,29 @@ def ym_cancel_args(ints_only=False):
                {"weeks": -((365 * y + 30 * mo) // 7), "days": -((365 * y + 30 * mo) % 7) + eps_d, "microseconds": eps_us} if how == 1 else
                {"days": -(365 * y + 30 * mo) + split + eps_d, "hours": -24 * split, "microseconds": eps_us})),
         st.integers(-6, 6), st.integers(-80, 80), st.integers(-3, 3), st.sampled_from([0, 0, 0, 1, -1]), st.sampled_from([0, 0, 0, 1, -1, 500000]), st.integers(0, 2))
+
+
+EDGE_YEARS = [4, 100, 200, 400, 800, 1200, 1500, 1582, 1600, 1700, 1900, 2000, 2024, 2100, 2400, 2800, 3600, 4000, 4400, 5200, 6000, 8000, 8400, 9200, 9600, 9996]
+
+
+@st.composite
+def calendar_edge_wall(draw):
+    """naive wall value (us since 1970) on a calendar edge: last days of February / 1 March (leap-rule years: every century, the multiples of 400
+    and of 4000, the Julian/Gregorian switch), month and year ends, 30 November (a day-roll into December), at a time of day close to midnight,
+    noon, or an evening hour that crosses midnight when shifted to UTC.  Uniform draws reach 29 February 2000 once in ~1.5 million cases."""
+    import calendar
+    import datetime as D
+    y = draw(st.one_of(st.sampled_from(EDGE_YEARS), st.sampled_from(EDGE_YEARS), st.integers(2, 9997)))
+    md = draw(st.sampled_from([(2, 28), (2, 29), (2, 29), (3, 1), (12, 31), (1, 1), (1, 31), (11, 30), (12, 1), (10, 31), (6, 30), (2, 27)]))
+    m, d = md
+    d = min(d, calendar.monthrange(y, m)[1])
+    tod = draw(st.sampled_from([0, 1, 43200 * US, 86400 * US - 1, 18 * 3600 * US, 20 * 3600 * US + 30 * 60 * US, 23 * 3600 * US, 3600 * US]) | st.integers(0, 86400 * US - 1))
+    return T.naive_us(D.datetime(y, m, d)) + tod
+
+
+@st.composite
+def calendar_edge_instant(draw, zone):
+    """an instant whose local rendering in `zone` is (close to) a calendar-edge wall time"""
+    w = draw(calendar_edge_wall())
+    off = T.offset_at(clamp_u(w), zone)
+    return clamp_u(w - off * US)
